@@ -59,6 +59,7 @@ class Val:
     has_keys: FrozenSet[str] = frozenset()   # constant keys this (raw mapping) value was tested to contain
     keys_of: Optional[str] = None            # this collection holds (a subset of) the keys of the named raw mapping
     key_of: Optional[str] = None             # this value is a key of the named raw mapping (hence hashable, present)
+    is_datum: bool = False                   # the loader's argument itself (not something derived from it)
 
     def is_raw(self) -> bool:
         return self.taint == RAW
@@ -126,6 +127,9 @@ class Esc:
         self.user_code_calls: List[str] = []
         self.pending_origins: Dict[EscKey, Origin] = {}
         self.user_names: Set[str] = set()
+        self.events: List[Tuple] = []          # acceptance events of the current root analysis (SIB rules)
+        self.log_events = False
+        self.freevar_funcs: Dict[str, Any] = {}  # callee text -> (FunctionDef, ModuleInfo, ClassInfo) bound for this mode
 
     # ------------------------------------------------------------------ exception classes of the repo
     def _repo_exc_bases(self) -> Dict[str, List[str]]:
@@ -177,7 +181,7 @@ class Esc:
             params = func_params(fn)
             env: Dict[str, Val] = {}
             if args is None:
-                args = [Val(RAW)] + [Val(CLEAN)] * (len(params) - 1)
+                args = [Val(RAW, is_datum=True)] + [Val(CLEAN)] * (len(params) - 1)
             for p, v in zip(params, args):
                 env[p] = v
             for p in params[len(args):]:
@@ -230,6 +234,10 @@ class _Frame:
         self.user_mode = 0
 
     # ------------------------------------------------------------------ helpers
+    def ev(self, *e) -> None:
+        if self.A.log_events:
+            self.A.events.append(tuple(e))
+
     def origin(self, exc: str, node: ast.AST) -> Origin:
         return Origin(exc, norm(node)[:200], self.fctx.module, self.fctx.qual, getattr(node, "lineno", 0), self.via, node)
 
@@ -454,6 +462,11 @@ class _Frame:
             return esc, env, True
         if isinstance(st, ast.Return):
             if st.value is not None:
+                if not self.via:
+                    head = norm(st.value.func) if isinstance(st.value, ast.Call) else (
+                        "DATUM" if isinstance(st.value, ast.Name) and st.value.id in env and env[st.value.id].is_datum
+                        else type(st.value).__name__)
+                    self.ev("return", head)
                 v = self.eval(st.value, env, esc)
                 if v.pending:
                     # a lazy iterable returned to the caller: released at the caller
@@ -465,6 +478,7 @@ class _Frame:
             return esc, env, False
         if isinstance(st, ast.If):
             env = dict(env)
+            self._log_test(st.test, env)
             self.eval(st.test, env, esc)
             et, ef = self.refine(st.test, env)
             flag = self._flag_of(st.test, env)
@@ -566,6 +580,21 @@ class _Frame:
             return esc, cur, True
         raise Undetermined(f"unknown statement kind {type(st).__name__} in {self.fctx.qual}")
 
+    def _log_test(self, test: ast.expr, env: Dict[str, Val]) -> None:
+        if not self.A.log_events:
+            return
+        datum_names = {k for k, v in env.items() if v.is_datum}
+        typeof_names = {k for k, v in env.items() if v.typeof in datum_names}
+        names = {n.id for n in ast.walk(test) if isinstance(n, ast.Name)}
+        if names & (datum_names | typeof_names):
+            txt = norm(test)
+            import re as _re
+            for dn in sorted(datum_names, key=len, reverse=True):
+                txt = _re.sub(rf"\b{_re.escape(dn)}\b", "DATUM", txt)
+            for tn in sorted(typeof_names, key=len, reverse=True):
+                txt = _re.sub(rf"\b{_re.escape(tn)}\b", "type(DATUM)", txt)
+            self.ev("test", txt)
+
     def _flag_of(self, test: ast.expr, env: Dict[str, Val]):
         """(polarity, Val) when the test is `flag` / `not flag` of a tracked boolean flag."""
         if isinstance(test, ast.Name) and test.id in env and (env[test.id].const is not None or env[test.id].true_user_only):
@@ -598,6 +627,7 @@ class _Frame:
             # raise helper(...) where helper returns its (annotated) argument, e.g. raise append_trail(e, k)
             names = self.A.exc_name_of(exc.func, self.fctx)
             if names and not names[0].startswith("?") and self.A.H.known(names[0]):
+                self.ev("reject", names[0], len(exc.args) + len(exc.keywords))
                 self.add(esc, names, st)
                 return
             passthrough = self._passthrough_exc(exc, env)
@@ -608,6 +638,7 @@ class _Frame:
             return
         names = self.A.exc_name_of(exc, self.fctx)
         if names and not names[0].startswith("?") and self.A.H.known(names[0]):
+            self.ev("reject", names[0], 0)
             self.add(esc, names, st)
         else:
             self.add(esc, {TOP}, st)
@@ -729,6 +760,8 @@ class _Frame:
         return Val(CLEAN, expr=None)
 
     def consume_iter(self, it: Val, node: ast.expr, esc: Escapes) -> None:
+        if it.is_datum:
+            self.ev("probe", "iter")
         if it.pending:
             self.release(esc, it.pending, node)
         if it.taint == RAW and it.bound is None:
@@ -890,6 +923,8 @@ class _Frame:
         if isinstance(e, ast.Attribute):
             v = self.eval(e.value, env, esc)
             if v.taint == RAW:
+                if v.is_datum:
+                    self.ev("probe", "." + e.attr)
                 eff2 = M.method_effect(e.attr, v.types)
                 if eff2 is None:
                     self.add(esc, {"AttributeError"}, e)
@@ -997,7 +1032,7 @@ class _Frame:
                             self.add(esc, {"TypeError"}, e)
                     elif kind == "rawany":
                         self.add(esc, {"TypeError"}, e)
-                    else:
+                    elif self.A.role == "loader":
                         raise Undetermined(
                             f"cannot determine container kind of `{norm(rnode)}` in `{norm(e)}` ({self.fctx.qual})")
             elif isinstance(op, (ast.Lt, ast.LtE, ast.Gt, ast.GtE)):
@@ -1013,6 +1048,8 @@ class _Frame:
     def eval_subscript(self, e: ast.Subscript, env: Dict[str, Val], esc: Escapes) -> Val:
         cont = self.eval(e.value, env, esc)
         key = self.eval(e.slice, env, esc)
+        if cont.is_datum:
+            self.ev("probe", "subscript")
         if cont.taint == RAW and isinstance(e.slice, ast.Constant) and repr(e.slice.value) in cont.has_keys:
             return Val(RAW)  # dominated by `<key> in x`
         if cont.taint == RAW and key.key_of is not None and isinstance(e.value, ast.Name) and key.key_of == e.value.id:
@@ -1095,6 +1132,8 @@ class _Frame:
                 # dotted name (module.func / Class.method / self.x): evaluate receiver only if it is not static
                 recv = self.eval(f.value, env, esc) if self._is_dynamic(f.value, env) else Val(CLEAN, expr=f.value)
             if recv.taint == RAW:
+                if recv.is_datum:
+                    self.ev("probe", "." + f.attr)
                 eff = M.method_effect(f.attr, recv.types)
                 if eff is None:
                     raise Undetermined(f"unmodelled method .{f.attr}() on raw data in {self.fctx.qual}: `{norm(call)}`")
@@ -1123,7 +1162,10 @@ class _Frame:
                 eff = eff - {"TypeError"}
             self.add(esc, eff, call)
             return Val(RAW, frozenset({"Iterable"}) if callee_val.bound in ("items", "keys", "values") else None)
-        if callee_val is not None and callee_val.avs is not None:
+        if isinstance(f, ast.Name) and f.id in A.freevar_funcs and f.id not in env:
+            node_, mod_, cls_ = A.freevar_funcs[f.id]
+            avs = [("func", node_, mod_, cls_)]
+        elif callee_val is not None and callee_val.avs is not None:
             avs = callee_val.avs
         elif callee_val is not None and callee_val.taint == RAW:
             raise Undetermined(f"raw data is called in {self.fctx.qual}: `{norm(call)}`")
@@ -1140,6 +1182,7 @@ class _Frame:
             kind = av[0]
             if kind == "provided":
                 handled = True
+                self.ev("apply", "datum" if any(v.is_datum for v in allargs) else "element")
                 if A.role == "loader":
                     self.add(esc, {"LoadError", USER}, call)
                 else:
@@ -1326,6 +1369,8 @@ class _Frame:
         # lazy wrappers
         if name == "builtins.map" and len(argvals) >= 2:
             it = argvals[1]
+            if it.is_datum:
+                self.ev("probe", "iter")
             if it.taint == RAW:
                 self.add(esc, M.call_effect("builtins.map", it.types) or (), call)
             if it.pending:
@@ -1359,6 +1404,8 @@ class _Frame:
             if name == "datetime.timedelta":
                 pass
             return Val(taint if taint != CLEAN else (LOADED if rt is None else CLEAN), frozenset({rt}) if rt else None)
+        if first_raw.is_datum or any(v.is_datum for v in allvals):
+            self.ev("probe", name.replace("builtins.", ""))
         eff = M.call_effect(name, first_raw.types)
         if eff is None:
             raise Undetermined(f"stdlib callable `{name}` applied to raw data is not in the effect table "
